@@ -342,6 +342,28 @@ fn run_oracle(ctx: &mut Ctx, dirty: &mut Option<Vec<u8>>, chain: &mut Option<(vt
                 ctx.record(f);
             }
         }
+        "C10" => {
+            let f = vtharness::catch(|| oracle::c10_formatted(&s)).unwrap_or(None);
+            ctx.record(f);
+            for k in 0..2 {
+                if let Some(Some(p)) = ctx.sess.runner.slots.get(k).cloned() {
+                    let f = vtharness::catch(|| oracle::c10_diff(&p, &s)).unwrap_or(None);
+                    ctx.record(f);
+                    let f = vtharness::catch(|| oracle::c10_diff(&s, &p)).unwrap_or(None);
+                    ctx.record(f);
+                }
+            }
+        }
+        "C09" => {
+            let f = vtharness::catch(|| oracle::c09_attrs(&s, &mut ctx.rng)).unwrap_or(None);
+            ctx.record(f);
+            for k in 0..2 {
+                if let Some(Some(p)) = ctx.sess.runner.slots.get(k).cloned() {
+                    let f = vtharness::catch(|| oracle::c09_pen_diff(&p, &s)).unwrap_or(None);
+                    ctx.record(f);
+                }
+            }
+        }
         "C19" => {
             // original vs its reproduction via C01
             if s.scrollback() == 0 {
@@ -416,20 +438,38 @@ fn run_generic(ctx: &mut Ctx, n_cases: u64) {
 
 /// C04: the same byte string whole, at every single cut, byte-at-a-time, random multi-cuts, via Write
 fn run_c04(ctx: &mut Ctx, n_cases: u64) {
-    for _ in 0..n_cases {
+    // deterministic templates first: every C1 control character as UTF-8, every boundary character
+    // class of the UTF-8 decoder, between two ASCII characters — cut everywhere
+    let mut templates: Vec<Vec<u8>> = vec![];
+    for x in 0x80u8..=0x9f {
+        templates.push(vec![b'a', 0xC2, x, b'b']);
+    }
+    for cp in [0xA0u32, 0xFF, 0x7FF, 0x800, 0xFFFD, 0xD7FF, 0xE000, 0xFFFF, 0x10000, 0x10FFFF, 0x4E00, 0x301] {
+        let mut v = vec![b'a'];
+        let mut b = [0u8; 4];
+        v.extend_from_slice(char::from_u32(cp).unwrap().encode_utf8(&mut b).as_bytes());
+        v.push(b'b');
+        templates.push(v);
+    }
+    let n_templates = templates.len() as u64;
+    for case_i in 0..(n_cases + n_templates) {
         let (rows, cols) = gen::pick_size(&mut ctx.rng, ctx.thorough, ctx.sess.cases);
         let sb = gen::pick_sb(&mut ctx.rng, rows);
         // the byte string
         let mut g = Gen::new(Rng(ctx.rng.next() | 1), rows, cols);
         let n = g.rng.range(1, 6);
         let mut bytes = vec![];
-        for _ in 0..n {
-            let k = if g.rng.chance(1, 3) {
-                *g.rng.pick(&[Kind::Utf8Bad, Kind::Osc, Kind::CsiOther, Kind::Dcs, Kind::Garbage, Kind::Text])
-            } else {
-                g.pick_kind(ALL_KINDS)
-            };
-            bytes.extend(g.chunk(k));
+        if (case_i as usize) < templates.len() {
+            bytes = templates[case_i as usize].clone();
+        } else {
+            for _ in 0..n {
+                let k = if g.rng.chance(1, 3) {
+                    *g.rng.pick(&[Kind::Utf8Bad, Kind::Osc, Kind::CsiOther, Kind::Dcs, Kind::Garbage, Kind::Text])
+                } else {
+                    g.pick_kind(ALL_KINDS)
+                };
+                bytes.extend(g.chunk(k));
+            }
         }
         if bytes.len() > 60 {
             bytes.truncate(60);
